@@ -14,6 +14,7 @@ def run(scn, seed):
     from lightstreamer_adapter.interfaces.metadata import MetadataProvider
     SR = random.Random(seed)
     sched = shim.Sched(lambda names, ops: SR.choice(names))
+    sched.yield_on_flags = True      # setting the stop flag and closing the socket are scheduling points of their own here
     sock = shim.Socket()
     saved = shim.install(sched, sock)
     log = []
